@@ -2016,8 +2016,9 @@ def tag_fn(ctx: "Wtp", token: str) -> None:
 
     # Try to parse it as a start tag
     m = re.match(
-        r"""<([-a-zA-Z0-9]+)\s*((\b[-a-zA-Z0-9:_.]+(\s*=\s*("[^"]*"|"""
-        r"""'[^']*'|[^ \t\n"'`=<>]*))?\s*)*)/?>""",
+        r"""<([-a-zA-Z0-9]+)\s*((\b[-a-zA-Z0-9:_.]+(?![-a-zA-Z0-9:_.])"""
+        r"""(\s*=\s*("[^"]*"|"""
+        r"""'[^']*'|[^ \t\n"'`=<>]*(?![^ \t\n"'`=<>])))?\s*)*)/?>""",
         token,
     )
     if m is not None:
@@ -2236,9 +2237,13 @@ token_list: list[str] = [
     r"[ \t]+\n*",
     r":",  # sometimes special when not beginning of line
     r"<<[-a-zA-Z0-9/]*>>",
-    # (attribute names may contain ":", "_", "." and "-", as in MediaWiki)
-    r"""<[-a-zA-Z0-9]+\s*(\b[-a-zA-Z0-9:_.]+(\s*=\s*("[^<>"]*"|"""  # HTML start
-    r"""'[^<>']*'|[^ \t\n"'`=<>]*))?\s*)*/?>""",  # HTML start tag
+    # (attribute names may contain ":", "_", "." and "-", as in MediaWiki; a
+    # name is a maximal run of such characters and so is an unquoted value -
+    # the lookaheads keep the pattern from trying every way of cutting
+    # "a.b.c.d" into names when no ">" follows, which took exponential time)
+    r"""<[-a-zA-Z0-9]+\s*(\b[-a-zA-Z0-9:_.]+(?![-a-zA-Z0-9:_.])"""
+    r"""(\s*=\s*("[^<>"]*"|"""  # HTML start
+    r"""'[^<>']*'|[^ \t\n"'`=<>]*(?![^ \t\n"'`=<>])))?\s*)*/?>""",  # start tag
     r"</[-a-zA-Z0-9]+\s*>",
     r"(" + r"|".join(r"\b{}\b".format(x) for x in MAGIC_WORDS) + r")",
     r"[{:c}-{:c}]".format(MAGIC_FIRST, MAGIC_LAST),
